@@ -13,6 +13,8 @@ use std::time::Instant;
 
 pub const VERIF_ROOT: &str = "/verif";
 pub static PANIC_LOG: Mutex<Vec<String>> = Mutex::new(Vec::new());
+/// set by main: re-executes one replay description, true if the violation is still there
+pub static REPLAYER: std::sync::OnceLock<fn(&str, &Value) -> bool> = std::sync::OnceLock::new();
 
 // ---------------------------------------------------------------- scratch
 
@@ -507,6 +509,19 @@ impl Report {
         }
         new_viols.sort_by_key(|v| v.replay.to_string().len());
         new_viols.truncate(8);
+        // every violation is re-executed once from its replay description before it is believed
+        if let Some(rp) = REPLAYER.get() {
+            let mut kept = vec![];
+            for v in new_viols {
+                let again = std::panic::catch_unwind(|| rp(&v.property, &v.replay)).unwrap_or(true);
+                if again {
+                    kept.push(v);
+                } else {
+                    self.machinery(format!("a violation did not reproduce when re-executed and was dropped: [{}] {}", v.signature, v.message));
+                }
+            }
+            new_viols = kept;
+        }
         let mach = self.machinery_errors.lock().unwrap().clone();
         let capped = self.capped.lock().unwrap().clone();
         let mut cov = self.coverage.lock().unwrap().clone();
